@@ -154,6 +154,9 @@ struct PeerWorld {
     desync: [bool; 8],
     /// version the responder will accept
     version: u64,
+    /// the responder accepts with peer_sharing = 0 (peer sharing negotiated off): the initiator must not
+    /// speak the peer-sharing protocol on this connection
+    sharing_off: bool,
 }
 
 struct Sys {
@@ -253,7 +256,8 @@ impl Sys {
             peers,
             ..Default::default()
         };
-        let w = (0..n).map(|i| PeerWorld { version: su.accept[i], ..Default::default() }).collect();
+        // an accept entry >= 1000 encodes "version (entry - 1000), peer sharing negotiated off"
+        let w = (0..n).map(|i| PeerWorld { version: su.accept[i] % 1000, sharing_off: su.accept[i] >= 1000, ..Default::default() }).collect();
         Sys {
             b,
             ids,
@@ -297,7 +301,10 @@ impl Sys {
         use proto::{blockfetch as bf, chainsync as cs, handshake as hs, keepalive as ka, leiosfetch as lf, leiosnotify as ln, peersharing as ps};
         let tip = cs::Tip(Point::new(1000, vec![0xCC; 32]), 1000);
         match (pr, kind) {
-            (Proto::Handshake, "Accept") => AnyMessage::Handshake(hs::Message::Accept(self.w[p].version, p2pdrive::std_version_data())),
+            (Proto::Handshake, "Accept") => AnyMessage::Handshake(hs::Message::Accept(
+                self.w[p].version,
+                if self.w[p].sharing_off { hs::n2n::VersionData::new(proto::MAINNET_MAGIC, false, Some(0), Some(false)) } else { p2pdrive::std_version_data() },
+            )),
             (Proto::Handshake, "Refuse") => AnyMessage::Handshake(hs::Message::Refuse(hs::RefuseReason::VersionMismatch(vec![7, 8]))),
             (Proto::KeepAlive, "ResponseKeepAlive") => AnyMessage::KeepAlive(ka::Message::ResponseKeepAlive(u16::MAX)),
             (Proto::ChainSync, "AwaitReply") => AnyMessage::ChainSync(cs::Message::AwaitReply),
@@ -542,6 +549,12 @@ impl Sys {
                         self.after_desync += 1;
                         w.wire.push_back(m);
                         continue;
+                    }
+                    if pr == Proto::PeerSharing && w.sharing_off {
+                        out.push(Finding {
+                            sig: format!("C28:peersharing:emit={kind}:peer-sharing-negotiated-off"),
+                            what: format!("{} made the initiator emit peersharing:{kind} to peer {qi} although the handshake of that connection was accepted with peer_sharing = 0", act.kind()),
+                        });
                     }
                     let prior = w.unconfirmed[pr.index()];
                     let same_step = prior > 0 && w.last_emit_step[pr.index()] == self.steps;
@@ -857,7 +870,7 @@ fn main() {
         let su = Setup {
             peers: n,
             offer: if leios { vec![13, 15] } else { vec![13] },
-            accept: (0..n).map(|_| if leios && r.chance(2, 3) { 15 } else { 13 }).collect(),
+            accept: (0..n).map(|_| (if leios && r.chance(2, 3) { 15 } else { 13 }) + if r.chance(1, 4) { 1000 } else { 0 }).collect(),
             max_hot: 1 + r.usize_below(4),
             max_warm: 1 + r.usize_below(6),
         };
